@@ -164,9 +164,10 @@ def gen_loads_for_bar(rng, bid, nmax=6, allow_mz_dist=True, nodal_only=False):
                 if ts and rng.random() < 0.25:
                     # a twin: within 1e-10 of a position already used (the code identifies them)
                     t = min(max(rng.choice(ts) + rng.choice([1, -1]) * Fr("5e-11"), Fr(0)), Fr(1))
-                elif rng.random() < 0.12:
+                elif rng.random() < 0.2:
                     # within 1e-10 of a bar end without being the end
-                    t = rng.choice([Fr("5e-11"), 1 - Fr("5e-11"), Fr("3e-12"), 1 - Fr("1e-12")])
+                    # ... or a little farther (single-precision exports such as 0.99999994): still not the end
+                    t = rng.choice([Fr("5e-11"), 1 - Fr("5e-11"), Fr("3e-12"), 1 - Fr("1e-12"), 1 - Fr("6e-8"), Fr("6e-8"), Fr("0.0000002"), 1 - Fr("0.0000009")])
                 ts.append(t)
                 loads.append({"kind": "c", "term": term, "local": local, "bar": bid, "t": t, "v": val})
             else:
@@ -323,6 +324,21 @@ def gen_support_loads(rng):
                     s.loads.append({"kind": "c", "term": term, "local": rng.random() < 0.5, "bar": b["id"], "t": t,
                                     "v": Fr(rng.choice([-1, 1]) * rng.choice([250, 600, 1000]))})
     s.meta = {"kind": "support-loads/" + s.meta.get("kind", "?")}
+    return s
+
+
+def gen_pinned_near_end(rng):
+    """a bar pinned at both ends whose only loads are forces close to, but not at, an end (1e-9 .. 1e-4
+    away): not an axial member - it must be sliced and keep its loads"""
+    s = gen_single_bar(rng)
+    b = s.bars[0]
+    b["l1"], b["l2"] = LINKS["pin"], LINKS["pin"]
+    d = Fr(rng.choice(["6e-8", "1e-9", "0.0000009", "0.00002", "0.0002", "2e-7"]))
+    t = d if rng.random() < 0.5 else 1 - d
+    s.loads = [{"kind": "c", "term": rng.choice(["fx", "fy"]), "local": rng.random() < 0.5, "bar": b["id"], "t": t, "v": Fr(-70)}]
+    if rng.random() < 0.4:
+        s.loads.append({"kind": "c", "term": "fy", "local": True, "bar": b["id"], "t": rng.choice([Fr(0), Fr(1)]), "v": Fr(120)})
+    s.meta = {"kind": "pinned-near-end"}
     return s
 
 
